@@ -176,6 +176,18 @@ func c01Alterations(k *vfKey, honest *ProofD, attrs []*big.Int) []c01Alt {
 		shift("ordshift:a_response", fmt.Sprintf("a_responses[%d]", i), func(p *ProofD) *big.Int { return p.AResponses[i] }, func(p *ProofD, v *big.Int) { p.AResponses[i] = v }, pk.Params.LmCommit)
 	}
 	shift("ordshift:e_response", "e_response", func(p *ProofD) *big.Int { return p.EResponse }, func(p *ProofD, v *big.Int) { p.EResponse = v }, pk.Params.LeCommit)
+	// disclosed values negated (a value longer than l_m enters the verification as the hash of its bytes -
+	// of the value, not of its absolute value)
+	for _, i := range dis {
+		i := i
+		add("negated:a_disclosed", fmt.Sprintf("a_disclosed[%d] negated", i), func(p *ProofD) {
+			if p.ADisclosed[i].Sign() == 0 {
+				p.ADisclosed[i] = vfInt(-1)
+				return
+			}
+			p.ADisclosed[i] = new(big.Int).Neg(p.ADisclosed[i])
+		})
+	}
 	// disclosed VALUES shifted by multiples of the group order, in both directions (R_i^(a+k*ord) = R_i^a:
 	// only the treatment of over-long / negative values stands between such a value and acceptance)
 	// (not on toy keys whose group order is no longer than a message: there a+ord IS another message with
@@ -254,7 +266,7 @@ func c01Shapes(pk *gabikeys.PublicKey, maxN int) []c01Shape {
 func c01Run(t *testing.T, sub, keyName string, maxN int, withAlterations bool, maxDev int, nonrev bool, qb, tb time.Duration) {
 	r := vkit.Start(t, "C01", sub, qb, tb)
 	defer r.Finish()
-	r.Rule = "credential shapes (n attrs; tags / boundary sizes incl. hashed / all-equal) x every disclosure subset; per honest proof every alteration of the menu (disclosed values shifted by +-k*ord for k in {1,2,1000003}, leaf arithmetic, swaps, key move/copy/delete/re-key, split(x), compensated pairs, k*ord shifts at both range ends); honest proofs also under <=1 environment-answer deviation; non-trivial = distinct (shape,subset,alteration) whose altered proof differs from the honest one; oracle: accepted => disjoint index sets, reported values = signed values, responses in protocol range, reference verifier agrees; honest => accepted"
+	r.Rule = "credential shapes (n attrs; tags / boundary sizes incl. hashed / all-equal) x every disclosure subset; per honest proof every alteration of the menu (disclosed values negated, disclosed values shifted by +-k*ord for k in {1,2,1000003}, leaf arithmetic, swaps, key move/copy/delete/re-key, split(x), compensated pairs, k*ord shifts at both range ends); honest proofs also under <=1 environment-answer deviation; non-trivial = distinct (shape,subset,alteration) whose altered proof differs from the honest one; oracle: accepted => disjoint index sets, reported values = signed values, responses in protocol range, reference verifier agrees; honest => accepted"
 	k := vfK(keyName)
 	pk := k.Pk
 	env := vfInstallEnv(t, "C01/"+sub, r.Seed)
